@@ -79,10 +79,15 @@ def h_recorder(ctx: Ctx, cfg):
         rec = tracker.recorders[0]
     else:
         extra = {n: (lambda t, i, p, _f=f: _f(i.get_phenotype())) for n, f in user_cbs.items()} or None
-        rec = CSVSearchRecorder(path, problem, extra_fields=extra, only_record_best_individuals=only_best)
+        custom = None
+        if cfg.get("custom_fields"):
+            custom = {"Prog": lambda t, i, p: repr(i.get_phenotype()), "F0": lambda t, i, p: i.get_fitness(p).fitness_components[0]}
+        rec = CSVSearchRecorder(path, problem, fields=custom, extra_fields=extra, only_record_best_individuals=only_best)
         T = SingleObjectiveProgressTracker if nobj == 1 else MultiObjectiveProgressTracker
         tracker = T(problem, SequentialEvaluator(), [rec])
     header = ["Execution Time", "Phenotype"] + [f"Fitness{c}" for c in range(nobj)] + names
+    if cfg.get("custom_fields") and via != "simplegp":
+        header = ["Prog", "F0"] + names
     try:
         _check_file(ctx, path, header, [], "after construction")
         expected = []
@@ -100,9 +105,12 @@ def h_recorder(ctx: Ctx, cfg):
             if flags[-1] or not only_best:
                 v = fit.value_of(ind.genotype)
                 comps = list(v) if nobj > 1 else [v]
-                row = {"Phenotype": repr(ind.genotype)}
-                for c in range(nobj):
-                    row[f"Fitness{c}"] = float(comps[c])
+                if cfg.get("custom_fields") and via != "simplegp":
+                    row = {"Prog": repr(ind.genotype), "F0": float(comps[0])}
+                else:
+                    row = {"Phenotype": repr(ind.genotype)}
+                    for c in range(nobj):
+                        row[f"Fitness{c}"] = float(comps[c])
                 for n in names:
                     row[n] = f"{n}-{ind.genotype.k}"
                 expected.append(row)
@@ -134,6 +142,8 @@ def obligations(tier: str):
     add("three_objectives", objectives=3, n=2, table=2, mode="all")
     add("single_objective_one_extra_field", objectives=1, n=2, extra=1)
     add("two_objectives_two_extra_fields", objectives=2, n=2, extra=2, mode="all")
+    add("custom_fields_only", objectives=1, n=2, custom_fields=True)
+    add("custom_fields_and_two_extra_fields", objectives=2, n=2, extra=2, custom_fields=True, mode="all")
     add("simplegp_one_extra_field", objectives=1, n=2, extra=1, via="simplegp")
     add("simplegp_two_extra_fields", objectives=1, n=2, extra=2, via="simplegp")
     add("simplegp_two_objectives_two_extra_fields", objectives=2, n=2, extra=2, via="simplegp", mode="all")
